@@ -152,7 +152,7 @@ func c02Handshake(ti, tr *Transport, short []int, psk, eofWithData bool) (*c02Pa
 const (
 	c02D   = iota // no queue; len(buf) >= encrypted length: read and decrypt in the caller's buffer
 	c02Bp         // no queue; len(buf) < plaintext length: pooled buffer, part copied, remainder queued
-	c02Bf         // no queue; plaintext <= len(buf) < encrypted length: pooled buffer, all copied, EMPTY remainder stays queued
+	c02Bf         // no queue; plaintext <= len(buf) < encrypted length: pooled buffer, all copied, buffer released at once
 	c02Qp         // queue drained partly
 	c02Ql         // queue drained to its end (>0 bytes) and released
 	c02Qz         // empty remainder released, Read returns (0, nil)
@@ -183,16 +183,17 @@ func c02ZeroPath(path, r int) int {
 
 // every transition of the reader's path automaton
 var c02PathPairs = [][2]int{
-	{c02D, c02D}, {c02D, c02Bp}, {c02D, c02Bf}, {c02Bp, c02Qp}, {c02Bp, c02Ql}, {c02Bf, c02Qz}, {c02Qp, c02Qp}, {c02Qp, c02Ql},
-	{c02Ql, c02D}, {c02Ql, c02Bp}, {c02Ql, c02Bf}, {c02Qz, c02D}, {c02Qz, c02Bp}, {c02Qz, c02Bf},
-	// zero-length reads: in each of the three states, after each kind of predecessor, before each kind of successor
-	{c02D, c02Bp0}, {c02Ql, c02Bp0}, {c02Qz0, c02Bp0}, {c02Bp, c02Qp0}, {c02Qp, c02Qp0}, {c02Bp0, c02Qp0}, {c02Qp0, c02Qp0}, {c02Bf, c02Qz0},
-	{c02Bp0, c02Qp}, {c02Bp0, c02Ql}, {c02Qp0, c02Qp}, {c02Qp0, c02Ql}, {c02Qz0, c02D}, {c02Qz0, c02Bp}, {c02Qz0, c02Bf},
+	{c02D, c02D}, {c02D, c02Bp}, {c02D, c02Bf}, {c02Bp, c02Qp}, {c02Bp, c02Ql}, {c02Bf, c02D}, {c02Bf, c02Bp}, {c02Bf, c02Bf}, {c02Qp, c02Qp}, {c02Qp, c02Ql},
+	{c02Ql, c02D}, {c02Ql, c02Bp}, {c02Ql, c02Bf},
+	// zero-length reads: in each of the two states, after each kind of predecessor, before each kind of successor
+	{c02D, c02Bp0}, {c02Ql, c02Bp0}, {c02Bf, c02Bp0}, {c02Bp, c02Qp0}, {c02Qp, c02Qp0}, {c02Bp0, c02Qp0}, {c02Qp0, c02Qp0},
+	{c02Bp0, c02Qp}, {c02Bp0, c02Ql}, {c02Qp0, c02Qp}, {c02Qp0, c02Ql},
 }
 
-// pairs that need three or more frames in one transfer under a particular policy: reported, not required of
-// every worker
-var c02PathPairsOptional = [][2]int{{c02Qz, c02Bp0}}
+// (Until the repair of DESIGN.md section 9, row 33, a frame that fitted the caller's buffer exactly left an EMPTY
+// remainder queued - path Bf - and the next Read released it and returned (0, nil) - paths Qz / Qz0. Those two paths
+// no longer exist; the constants stay so that an old tree is still described correctly.)
+var c02PathPairsOptional = [][2]int{}
 
 // c02Frames: plaintext sizes of the frames Write produces for the given write sizes.
 func c02Frames(writes []int) []int {
@@ -300,10 +301,12 @@ func (k *c02Tracker) after(r, n int, err error) {
 	} else {
 		k.fi++
 		switch {
+		case postQ < 0 && k.fi-1 < len(k.frames) && r < k.frames[k.fi-1]+16:
+			path = c02Bf // the frame did not fit together with its tag: pooled buffer, everything copied, released
 		case postQ < 0:
 			path = c02D
 		case postQ == 0:
-			path = c02Bf
+			path = c02Qz // an exhausted remainder left queued: the old behaviour (reported as a path-model mismatch)
 		default:
 			path = c02Bp
 		}
@@ -434,7 +437,8 @@ func c02Policies(L int, thorough, zeros bool) []memconn.Policy {
 		memconn.Fixed(17).WithZeros(1, 2),
 		memconn.Rel(-1).WithZeros(2, 0),
 		memconn.Rel(15).WithZeros(0, 2),
-		memconn.Rel(16).WithZeros(1))
+		memconn.Rel(16).WithZeros(1),
+		memconn.Rel(16).WithZeros(0, 1)) // (a zero-length Read right after a frame was read and decrypted in the caller's buffer)
 	if thorough {
 		pols = append(pols,
 			memconn.Fixed(MaxPlaintextLength).WithZeros(0, 1),
